@@ -43,6 +43,15 @@ pub fn canon(case: &Value) -> Value {
                 Json::to_writer(&mut buf, &v).map(|_| buf)
             })),
             "JsonPretty::canonicalize": render(guarded(|| JsonPretty::canonicalize(&v))),
+            // the text read by the crate's own reader instead of serde_json's
+            "Json::from_slice + Json::canonicalize": render(guarded(|| {
+                let v2: Value = Json::from_slice(t.as_bytes())?;
+                Json::canonicalize(&v2)
+            })),
+            "Json::from_reader + Json::canonicalize": render(guarded(|| {
+                let v2: Value = Json::from_reader(crate::util::ChunkReader::new(t.as_bytes()))?;
+                Json::canonicalize(&v2)
+            })),
             // a sink that takes only a few bytes per call (a pipe, a socket): the whole encoding or an error
             "Json::to_writer(sink taking 3 bytes per call)": render(guarded(|| {
                 let mut sink = crate::util::ShortWriter { buf: Vec::new(), step: 3 };
